@@ -48,8 +48,8 @@ var alphabet = []string{"a", "task", "_", "é", "日", "1", " ", "\t", "\n", "\r
 
 func hx(s string) string { return hex.EncodeToString([]byte(s)) }
 
-var lexLineRe = regexp.MustCompile(`\(Line (\d+)\)\. \n\n\d+ \|\t`)
-var parseLineRe = regexp.MustCompile(`(?s)\(Line (\d+)\)\..*?\n\n(\d+) \|\t(.*)$`)
+var lexLineRe = regexp.MustCompile(`(?i)\bline (\d+)\b[^\n]*\n+\d+[ \t]*\|[ \t]?`)
+var parseLineRe = regexp.MustCompile(`(?is)\bline (\d+)\b.*?\n+(\d+)[ \t]*\|[ \t]?(.*)$`)
 
 const watchdog = 3 * time.Second
 
